@@ -3,6 +3,7 @@ CONSTANTS
   MaxLen = 4
   ZeroEof = TRUE
   Quits = {1}
+  Socks = {FALSE}
   Filters = {7}
 INVARIANT InvNothingLeft
 INVARIANT InvSlices
